@@ -76,7 +76,7 @@ _writes_cache = {}
 
 def all_writes(ctx, fn):
     """every write event on any path of fn (callees inlined), deduplicated by site"""
-    key = (id(ctx.prog), fn.key)
+    key = (ctx.prog.path, ctx.prog.nonce, ctx.prog.config_id(), fn.key)
     if key in _writes_cache:
         return _writes_cache[key]
     from ..paths import PathEnumerator
